@@ -89,6 +89,12 @@ EXPLANATION = (
     "ProcDpath/ProcRTL, in a steady-flow abstraction (valid=1, no stall/squash, pipeline registers transparent, bypass muxes = "
     "register reads). For ProcCL one instruction flows fetch -> execute -> write-back -> next fetch with all queues ready. "
     "R-C20-arch: x0 hard-wired in all three register files; reset vector. "
+    "R-C20-hazard-symmetry and R-C20-gating are two STRUCTURAL NECESSARY CONDITIONS inside ProcCtrl's pipeline control; they do not "
+    "decide that the pipeline is correct (no hazard, stall or squash is simulated): (a) the stall / bypass-select logic of source "
+    "operand 2 is that of operand 1 under rs1<->rs2, each bypass select compares the field its register port reads, and the operand "
+    "enables of the control table are set for every instruction whose ISA semantics read that register; (b) every enable with an "
+    "architecturally visible side effect (discovered from the port wiring) carries its stage's valid bit and the ~stall / ~squash "
+    "terms that the stage's advance / commit condition and sibling enables carry (three frozen, reasoned exceptions). "
     "R-C20-cksum: ChecksumFL.checksum, ChecksumCL (unpack + same function) and ChecksumRTL (8 chained step units + combine) "
     "denote the same function of the 8 words in a modular-arithmetic normal form (word order, widths, modulus 2^16, sum2:sum1); "
     "this clause is complete for the checksum part of the property up to the trusted Bits arithmetic, queueing/timing excluded.")
@@ -1734,7 +1740,396 @@ def rule_cksum(repo):
     return r
 
 
-RULES = [rule_isa_doc, rule_encoding, rule_isa_set, rule_decode, rule_fl, rule_cl, rule_rtl, rule_arch, rule_cksum]
+
+# ---------------------------------------------------------------------------
+# Structural necessary conditions inside the pipeline control of ProcCtrl.  They do NOT decide that the pipeline is
+# correct (no hazard is simulated); they decide two code-shape facts whose violation breaks some program.
+def ctrl_info(repo):
+    st = rtl_setup(repo)
+    infos = [i for i in st.d.insts.values() if i.kind == 'src' and i.cls.name == 'ProcCtrl']
+    if len(infos) != 1:
+        raise AnalysisError("ProcRTL no longer instantiates exactly one ProcCtrl")
+    return st, infos[0]
+
+
+def ctrl_defs(info):
+    """signal -> [(guards, value node)] over the combinational blocks, in program order; ff-written names"""
+    defs, ff = {}, {}
+
+    def walk(stmts, guards, kind):
+        for stx in stmts:
+            if isinstance(stx, ast.AugAssign) and isinstance(stx.op, (ast.MatMult, ast.LShift)):
+                t = stx.target
+                if isinstance(t, ast.Attribute) and isinstance(t.value, ast.Name) and t.value.id == info.sname:
+                    (defs if kind == 'update' else ff).setdefault(t.attr, []).append((guards, stx.value))
+            elif isinstance(stx, ast.If):
+                walk(stx.body, guards + ((stx.test, True),), kind)
+                walk(stx.orelse, guards + ((stx.test, False),), kind)
+    for b in info.blocks:
+        walk(b.func.body, (), b.kind)
+    return defs, ff
+
+
+class BoolNF:
+    """normal form of the Boolean / comparison expressions of the control unit: & and | flattened and sorted,
+    == / != with sorted operands, constants folded to their values, instruction fields to their bit range"""
+    def __init__(self, repo, info):
+        self.it = Interp(repo, info.mod, env=dict(info.consts), self_name=None)
+        self.sname = info.sname
+
+    def const(self, e):
+        try:
+            v = self.it.ev(e)
+        except (AnalysisError, Undetermined, Raised, U.Fork):
+            raise AnalysisError(f"cannot normalise `{norm(e)}` in the control unit")
+        if isinstance(v, BV) and v.concrete():
+            return ('k', v.value())
+        if isinstance(v, (int, bool)):
+            return ('k', int(v))
+        if isinstance(v, slice):
+            return ('slice', v.start, v.stop)
+        raise AnalysisError(f"`{norm(e)}` is not a constant of the control unit")
+
+    def nf(self, e):
+        if isinstance(e, ast.BinOp) and isinstance(e.op, (ast.BitAnd, ast.BitOr)):
+            op = 'and' if isinstance(e.op, ast.BitAnd) else 'or'
+            return self._assoc(op, [self.nf(e.left), self.nf(e.right)])
+        if isinstance(e, ast.BoolOp):
+            return self._assoc('and' if isinstance(e.op, ast.And) else 'or', [self.nf(v) for v in e.values])
+        if isinstance(e, ast.UnaryOp) and isinstance(e.op, (ast.Invert, ast.Not)):
+            x = self.nf(e.operand)
+            return x[1] if x[0] == 'not' else ('not', x)
+        if isinstance(e, ast.Compare) and len(e.ops) == 1 and isinstance(e.ops[0], (ast.Eq, ast.NotEq)):
+            a, b = sorted((self.nf(e.left), self.nf(e.comparators[0])), key=repr)
+            return ('eq' if isinstance(e.ops[0], ast.Eq) else 'ne', a, b)
+        if isinstance(e, ast.Attribute):
+            parts, cur = [], e
+            while isinstance(cur, ast.Attribute):
+                parts.append(cur.attr)
+                cur = cur.value
+            if isinstance(cur, ast.Name) and cur.id == self.sname:
+                return ('sig', '.'.join(reversed(parts)))
+            return self.const(e)
+        if isinstance(e, ast.Subscript):
+            base = self.nf(e.value)
+            idx = self.const(e.slice) if not isinstance(e.slice, ast.Slice) else \
+                ('slice', self.const(e.slice.lower)[1], self.const(e.slice.upper)[1])
+            if base[0] == 'sig' and idx[0] == 'slice':
+                return ('fld', base[1], idx[1], idx[2])
+            return ('idx', base, idx)
+        if isinstance(e, ast.Call) and norm(e.func) in ('zext', 'sext') and len(e.args) == 2:
+            return self.nf(e.args[0])
+        if isinstance(e, (ast.Name, ast.Constant)):
+            return self.const(e)
+        raise AnalysisError(f"expression `{norm(e)[:60]}` outside the Boolean normal form of the control unit")
+
+    @staticmethod
+    def _assoc(op, items):
+        flat = []
+        for x in items:
+            flat.extend(x[1:] if x[0] == op else [x])
+        return (op,) + tuple(sorted(set(flat), key=repr))
+
+    def definition(self, entries):
+        return tuple((tuple((self.nf(t), pol) for t, pol in guards), self.nf(v)) for guards, v in entries)
+
+
+def _walk_nf(t):
+    yield t
+    if isinstance(t, tuple):
+        for x in t:
+            if isinstance(x, tuple):
+                yield from _walk_nf(x)
+
+
+def _rename(t, table, fields):
+    """swap the two operand families in a normal form: signal names by `table`, instruction fields by `fields`"""
+    if isinstance(t, tuple):
+        if t and t[0] == 'sig':
+            return ('sig', table.get(t[1], t[1]))
+        if t and t[0] == 'fld' and (t[2], t[3]) in fields:
+            lo, hi = fields[(t[2], t[3])]
+            return ('fld', t[1], lo, hi)
+        r = tuple(_rename(x, table, fields) for x in t)
+        if r and r[0] in ('and', 'or'):
+            return (r[0],) + tuple(sorted(set(r[1:]), key=repr))
+        if r and r[0] in ('eq', 'ne'):
+            a, b = sorted(r[1:], key=repr)
+            return (r[0], a, b)
+        return r
+    return t
+
+
+def _sibling_name(name):
+    for a, b in (('rs1', 'rs2'), ('op1', 'op2')):
+        if a in name:
+            return name.replace(a, b)
+    return None
+
+
+def rule_hazard_symmetry(repo):
+    r = RuleResult('R-C20-hazard-symmetry',
+                   "necessary condition only (pipeline correctness is NOT decided): in ProcCtrl the hazard-stall and "
+                   "bypass-select logic of the second source operand is the first operand's logic under the renaming "
+                   "rs1<->rs2 / op1<->op2 / field RS1<->RS2; each side reads the instruction field of the register port it "
+                   "serves; the operand enables are set for every instruction whose ISA semantics read that register")
+    st, info = ctrl_info(repo)
+    spec = doc_spec(repo)
+    mod = info.mod
+    nfz = BoolNF(repo, info)
+    defs, ff = ctrl_defs(info)
+    names = set(defs) | set(ff)
+    any_inst = next(n for n in spec.insts if spec.insts[n]['type'] == 'R')
+    f1 = spec.field(any_inst, 'rs1')
+    f2 = spec.field(any_inst, 'rs2')
+    F1, F2 = (f1[1], f1[0] + 1), (f2[1], f2[0] + 1)
+    fields = {F1: F2, F2: F1}
+    table = {}
+    for n in names:
+        sib = _sibling_name(n)
+        if sib and sib in names:
+            table[n], table[sib] = sib, n
+    dnf = {n: nfz.definition(e) for n, e in defs.items() if n != 'cs'}
+
+    def flds(n):
+        return {(t[2], t[3]) for t in _walk_nf(dnf[n]) if isinstance(t, tuple) and t and t[0] == 'fld' and (t[2], t[3]) in fields}
+
+    def sigs(n):
+        return {t[1] for t in _walk_nf(dnf[n]) if isinstance(t, tuple) and t and t[0] == 'sig'}
+
+    where = 'ProcCtrl.construct'
+    family1 = sorted(n for n in dnf if flds(n) and _sibling_name(n))
+    consistent = []
+    lonely = sorted(n for n in dnf if flds(n) and not _sibling_name(n) and not any(s in n for s in ('rs2', 'op2')))
+    for n in family1:
+        sib = _sibling_name(n)
+        cons = f"{n} ~ {sib} under rs1<->rs2"
+        if sib not in dnf:
+            r.bad(mod, where, cons, f"{n} reads a source-register field but has no second-operand sibling {sib}: hazards on the "
+                                    f"other source operand are not handled")
+            continue
+        if _rename(dnf[n], table, fields) != dnf[sib]:
+            # find the first differing assignment for the message
+            a, b = _rename(dnf[n], table, fields), dnf[sib]
+            k = next((i for i, (x, y) in enumerate(zip(a, b)) if x != y), min(len(a), len(b)))
+            src = defs[sib][k][1] if k < len(defs[sib]) else None
+            r.bad(mod, where, cons,
+                  f"the logic of {sib} is not the logic of {n} with the operands renamed (assignment {k + 1}: "
+                  f"`{norm(src)[:110] if src is not None else 'missing'}`): a dependence through the second source register is "
+                  f"detected on the wrong register / not at all, so e.g. `lw x5,..; sw x5,..` uses a stale value",
+                  getattr(src, 'lineno', 0))
+        elif flds(n) != {F1} or flds(sib) != {F2}:
+            r.bad(mod, where, cons, f"{n} reads instruction bits {sorted(flds(n))} and {sib} {sorted(flds(sib))}; expected rs1 "
+                                    f"{F1} and rs2 {F2} of the ISA document")
+        else:
+            r.ok(mod, where, cons)
+            consistent.extend([n, sib])
+    for n in lonely:
+        r.bad(mod, where, n, f"{n} compares a source-register field but is named for neither operand: outside the rule")
+    # signals that combine both families must be invariant under the swap
+    fam = set(table)
+    for n in sorted(dnf):
+        s_ = sigs(n)
+        if n not in fam and (s_ & fam) and not flds(n):
+            cons = f"{n} treats both operands alike"
+            if _rename(dnf[n], table, fields) != dnf[n]:
+                missing = sorted(table[x] for x in s_ & fam if table[x] not in s_)
+                r.bad(mod, where, cons, f"{n} uses {sorted(s_ & fam)} but not {missing}: one operand's hazard never stalls the pipeline")
+            else:
+                r.ok(mod, where, cons)
+    # each bypass select is computed from the field its register-file port reads
+    d = st.d
+    for mux_out, rdata in sorted(st.alias.items()):
+        mux = mux_out[:-len('.out')]
+        port = rdata[rdata.index('rdata[') + 6:-1]
+        ev = Eval(d, dict(st.over, **{st.roles['imem.resp'] + '.deq.ret.data': instvec(U.FULL)}), Ctx(), alias=st.alias)
+        addr = ev.value(f"{st.rf.path}.raddr[{port}]")
+        if not (isinstance(addr, BV) and all(isinstance(b, tuple) for b in addr.bits)):
+            raise AnalysisError("register-file read address is not an instruction field")
+        want = (addr.bits[0][1], addr.bits[-1][1] + 1)
+        sel = [m[len(info.path) + 1:] for m, sl in d.members((mux + '.sel', None))
+               if sl is None and m.startswith(info.path + '.') and m[len(info.path) + 1:] in dnf]
+        cons = f"select of {mux} reads the field of register port {port} (inst[{want[0]}:{want[1]}])"
+        if len(sel) != 1:
+            raise AnalysisError(f"cannot find the control signal selecting {mux}")
+        got = flds(sel[0])
+        if got != {want}:
+            r.bad(mod, where, cons, f"{sel[0]} compares instruction bits {sorted(got)} with the destinations in flight, but the "
+                                    f"operand it selects is read with bits {want}: the bypass fires for the wrong register")
+        else:
+            r.ok(mod, where, cons)
+    # operand enables cover the ISA's register reads
+    en_of = {}
+    if not consistent:
+        r.require_floor(1)
+        return r            # every pair is already reported; the enable columns cannot be identified from broken logic
+    for n in consistent:
+        for f in flds(n):
+            for sname_ in sigs(n):
+                e = defs.get(sname_)
+                if e and len(e) == 1 and any(isinstance(t, tuple) and t[:2] == ('fld', 'cs') for t in _walk_nf(nfz.nf(e[0][1]))):
+                    en_of.setdefault(f, set()).add(sname_)
+    if set(en_of) != {F1, F2} or any(len(v) != 1 for v in en_of.values()):
+        raise AnalysisError(f"cannot identify the operand-enable columns of the control table ({en_of})")
+    for name, tag, cube in spec_cases(spec):
+        def run(cu, ctx):
+            eff = spec.run(repo, name, cu, ctx)
+            reads = set()
+            for t in _walk_nf(tuple(eff[k] for k in SLOTS if eff.get(k) is not None)):
+                if isinstance(t, tuple) and len(t) == 2 and t[0] == 'R' and all(isinstance(b, tuple) for b in t[1]):
+                    reads.add((t[1][0][1], t[1][-1][1] + 1))
+            over = dict(st.over)
+            over[st.roles['imem.resp'] + '.deq.ret.data'] = instvec(cu)
+            ev = Eval(d, over, ctx, alias=st.alias)
+            for p in d.insts:
+                ev.over[(p + '.reset') if p else 'reset'] = BV.const(0, 1)
+            return tuple(sorted((f, _bit(ev.value(info.path + '.' + next(iter(en_of[f]))), 'operand enable'))
+                                for f in reads if f in en_of))
+        leaves = explore(cube, run)
+        r.evaluations += len(leaves)
+        bad = [(c, f) for c, tr, res in leaves for f, v in res if not v]
+        cons = f"{name}{tag}: operand enables cover the registers read by `{spec.insts[name]['semantics']}`"
+        if bad:
+            c, f = bad[0]
+            r.bad(mod, 'ProcCtrl.construct.comb_control_table_D', cons,
+                  f"{next(iter(en_of[f]))} is 0 for words {c} although the instruction reads R[inst[{f[0]}:{f[1]}]]: no stall and no "
+                  f"bypass protects that operand, it is read stale right after an instruction writing it")
+        else:
+            r.ok(mod, 'ProcCtrl.construct.comb_control_table_D', cons)
+    r.require_floor(16)
+    return r
+
+
+# side-effect enables that are deliberately not gated like their stage's other effects: sink role -> (what may be
+# missing, reason confirmed by reading ProcCtrlRTL.py / ProcRTL.py)
+GATING_EXCEPTIONS = {
+    'imem request enq.en': ('unstaged', "the fetch request is issued before the F stage holds an instruction and must also be "
+                                        "issued when F is squashed (redirect): gated by ~reset & (~stall_F | squash_F) & rdy"),
+    'imem response deq.en': ('unstaged', "the response of a squashed fetch must still be taken (the drop unit discards it): "
+                                         "~stall_F | squash_F"),
+    'register-file wen': ({'stall'}, "a register write repeated while W stalls is idempotent, and W only stalls for csrw "
+                                     "proc2mngr, which does not write the register file"),
+}
+GATE_PREFIXES = ('stall_', 'squash_', 'ostall_', 'osquash_')
+
+
+def rule_gating(repo):
+    r = RuleResult('R-C20-gating',
+                   "necessary condition only (pipeline correctness is NOT decided): every enable of ProcCtrl that causes an "
+                   "architecturally visible side effect (queue dequeue, memory / accelerator / manager request, register write) "
+                   "carries the valid bit of its stage and the negated stall / squash terms that the stage's advance condition and "
+                   "its sibling side-effect enables carry, so that a stalled or squashed instruction has no effect")
+    st, info = ctrl_info(repo)
+    d, q = st.d, st.roles
+    mod = info.mod
+    nfz = BoolNF(repo, info)
+    defs, ff = ctrl_defs(info)
+    drops = [p for p, i in d.insts.items() if i.kind == 'src' and i is not info and
+             any(m.startswith(p + '.') for m, sl in d.members((q['imem.resp'] + '.deq.en', None)))]
+    sinks = [('mngr2proc deq.en', q['mngr2proc'] + '.deq.en'), ('proc2mngr en', 'proc2mngr.en'),
+             ('dmem request en', 'dmem.req.en'), ('xcel request en', 'xcel.req.en'),
+             ('dmem response deq.en', q['dmem.resp'] + '.deq.en'), ('xcel response deq.en', q['xcel.resp'] + '.deq.en'),
+             ('register-file wen', st.rf.path + '.wen[0]'), ('imem request enq.en', q['imem.req'] + '.enq.en'),
+             ('imem response deq.en', (drops[0] + '.out.en') if len(drops) == 1 else q['imem.resp'] + '.deq.en')]
+
+    def driver(ref):
+        c = [m[len(info.path) + 1:] for m, sl in d.members((ref, None))
+             if sl is None and m.startswith(info.path + '.') and (m[len(info.path) + 1:] in defs)]
+        if len(c) != 1:
+            raise AnalysisError(f"cannot find the control-unit signal driving {ref}")
+        return c[0]
+
+    def expand(name, depth=0):
+        """conjuncts of the (single, unguarded) definition, helper wires inlined"""
+        e = defs.get(name)
+        if e is None or len(e) != 1 or e[0][0]:
+            raise AnalysisError(f"side-effect enable {name} is not a single unconditional assignment: outside the rule")
+        return conj(nfz.nf(e[0][1]), depth)
+
+    def conj(t, depth):
+        items = t[1:] if t[0] == 'and' else (t,)
+        out = set()
+        for x in items:
+            if x[0] == 'sig' and x[1] in defs and x[1] not in ff and not x[1].startswith(('val_',) + GATE_PREFIXES) \
+                    and len(defs[x[1]]) == 1 and not defs[x[1]][0][0] and depth < 4:
+                sub = nfz.nf(defs[x[1]][0][1])
+                if sub[0] == 'and' or (sub[0] == 'sig'):
+                    out |= conj(sub, depth + 1)
+                    continue
+            out.add(x)
+        return out
+
+    def gates(cs):
+        g, stage = set(), set()
+        for x in cs:
+            if x[0] == 'sig' and x[1].startswith('val_'):
+                stage.add(x[1][4:])
+                g.add(('val', x[1]))
+            elif x[0] == 'not' and x[1][0] == 'sig' and x[1][1].startswith(GATE_PREFIXES):
+                g.add(('not', x[1][1]))
+        return g, stage
+
+    # the advance condition of each stage: what is latched into the next stage's valid bit
+    family = {}
+    for name, entries in ff.items():
+        if name.startswith('val_'):
+            for guards, v in entries:
+                t = nfz.nf(v)
+                if t[0] == 'sig' and t[1] in defs:
+                    g, stage = gates(expand(t[1]))
+                    if len(stage) == 1:
+                        family.setdefault(next(iter(stage)), []).append((f"advance condition {t[1]}", t[1], g))
+    # ... and of the last stage: what is reported as a committed instruction
+    try:
+        cname = driver('commit_inst')
+        g, stage = gates(expand(cname))
+        if len(stage) == 1:
+            family.setdefault(next(iter(stage)), []).append((f"commit condition {cname}", cname, g))
+    except AnalysisError:
+        pass
+    found = []
+    for role, ref in sinks:
+        name = driver(ref)
+        g, stage = gates(expand(name))
+        found.append((role, name, g, stage))
+        if len(stage) == 1:
+            family.setdefault(next(iter(stage)), []).append((role, name, g))
+    for role, name, g, stage in found:
+        cons = f"{role} <- {name}"
+        exc = GATING_EXCEPTIONS.get(role)
+        if len(stage) != 1:
+            if exc and exc[0] == 'unstaged':
+                r.ok(mod, 'ProcCtrl.construct', cons, nontrivial=False, note='exception: ' + exc[1])
+            else:
+                r.bad(mod, 'ProcCtrl.construct', cons, f"{name} is not gated by the valid bit of exactly one stage (found "
+                                                       f"{sorted(stage)}): an invalid (bubble / squashed) instruction performs the side effect")
+            continue
+        S = next(iter(stage))
+        union = set()
+        for _, _, g2 in family[S]:
+            union |= g2
+        missing = union - g
+        if exc and isinstance(exc[0], set):
+            missing = {m for m in missing if not (m[0] == 'not' and any(m[1].startswith(k) for k in exc[0]))}
+        if missing:
+            have = sorted(n2 for _, n2, g2 in family[S] if missing & g2)
+            m0 = sorted(missing)[0]
+            txt = ('~' if m0[0] == 'not' else '') + m0[1]
+            r.bad(mod, 'ProcCtrl.construct', cons,
+                  f"{name} lacks the conjunct {txt} that {', '.join(have)} of the same stage carry: the side effect ({role}) also "
+                  f"happens for an instruction that is {'stalled (repeated every stalled cycle)' if 'stall' in txt else 'squashed (wrong path of a taken branch)' if 'squash' in txt else 'not valid'} "
+                  f"-- e.g. a manager message is consumed / a request is sent twice")
+        else:
+            r.ok(mod, 'ProcCtrl.construct', cons, note=f"stage {S}: " + ' & '.join(sorted(('~' if a == 'not' else '') + b for a, b in g))
+                 + (f"; exception: {exc[1]}" if exc else ''))
+    r.observations.append("stages and their gating terms: " + '; '.join(
+        f"{S}: {sorted(('~' if a == 'not' else '') + b for a, b in set().union(*[g for _, _, g in fam]))}" for S, fam in sorted(family.items())))
+    r.require_floor(9)
+    return r
+
+
+RULES = [rule_isa_doc, rule_encoding, rule_isa_set, rule_decode, rule_fl, rule_cl, rule_rtl, rule_arch, rule_cksum,
+         rule_hazard_symmetry, rule_gating]
 
 
 # ---------------------------------------------------------------------------
@@ -1819,6 +2214,23 @@ MUTANTS = [
     _m('ctrl-mngr2proc-select', CTRL, "s.mngr2proc_D    @= s.csrr_D & ( s.inst_D[CSRNUM] == CSR_MNGR2PROC )", "s.mngr2proc_D    @= s.csrr_D & ( s.inst_D[CSRNUM] == CSR_PROC2MNGR )", 'R-C20-rtl'),
     _m('ctrl-waddr-from-rs1', CTRL, "s.rf_waddr_D @= s.inst_D[RD]", "s.rf_waddr_D @= s.inst_D[RS1]", 'R-C20-rtl'),
     _m('ctrl-xcel-type-swapped', CTRL, "s.xcelreq_type_D @= XcelMsgType.READ", "s.xcelreq_type_D @= XcelMsgType.WRITE", 'R-C20-rtl'),
+    # --- ProcCtrlRTL: structural necessary conditions of the pipeline control ---------------------------------------
+    _m('hz-load-use-rs2-compares-rs1', CTRL, "s.ostall_ld_X_rs2_D @= s.rs2_en_D & s.val_X & s.rf_wen_pending_X \\\n                             & ( s.inst_D[ RS2 ]",
+       "s.ostall_ld_X_rs2_D @= s.rs2_en_D & s.val_X & s.rf_wen_pending_X \\\n                             & ( s.inst_D[ RS1 ]", 'R-C20-hazard-symmetry'),
+    _m('hz-xcel-rs2-uses-rs1-enable', CTRL, "s.ostall_xcel_X_rs2_D @= s.rs2_en_D", "s.ostall_xcel_X_rs2_D @= s.rs1_en_D", 'R-C20-hazard-symmetry'),
+    _m('hz-load-use-rs2-ignores-x0-test', CTRL, "s.ostall_ld_X_rs2_D @= s.rs2_en_D & s.val_X & s.rf_wen_pending_X \\\n                             & ( s.inst_D[ RS2 ] == s.rf_waddr_X ) & ( s.rf_waddr_X != 0 )",
+       "s.ostall_ld_X_rs2_D @= s.rs2_en_D & s.val_X & s.rf_wen_pending_X \\\n                             & ( s.inst_D[ RS2 ] == s.rf_waddr_M ) & ( s.rf_waddr_X != 0 )", 'R-C20-hazard-symmetry'),
+    _m('byp-op2-compares-rs1', CTRL, "if   s.val_X & ( s.inst_D[ RS2 ] == s.rf_waddr_X )", "if   s.val_X & ( s.inst_D[ RS1 ] == s.rf_waddr_X )", 'R-C20-hazard-symmetry'),
+    _m('byp-op2-m-stage-selects-w', CTRL, "& s.rf_wen_pending_M:    s.op2_byp_sel_D @= byp_m", "& s.rf_wen_pending_M:    s.op2_byp_sel_D @= byp_w", 'R-C20-hazard-symmetry'),
+    _m('hz-rs2-term-dropped', CTRL, "s.ostall_ld_X_rs1_D   | s.ostall_ld_X_rs2_D |", "s.ostall_ld_X_rs1_D   | s.ostall_ld_X_rs1_D |", 'R-C20-hazard-symmetry'),
+    _m('ctrl-sw-rs2-not-enabled', CTRL, "imm_s, bm_imm, y, alu_add, st,", "imm_s, bm_imm, n, alu_add, st,", 'R-C20-hazard-symmetry'),
+    _m('ctrl-add-rs1-not-enabled', CTRL, "elif inst == ADD  : s.cs @= concat( y, br_na,  y,", "elif inst == ADD  : s.cs @= concat( y, br_na,  n,", 'R-C20-hazard-symmetry'),
+    _m('gate-mngr2proc-ignores-squash', CTRL, "s.mngr2proc_en @= s.val_D & ~s.stall_D & ~s.squash_D & s.mngr2proc_D", "s.mngr2proc_en @= s.val_D & ~s.stall_D & s.mngr2proc_D", 'R-C20-gating'),
+    _m('gate-dmemreq-ignores-stall', CTRL, "s.dmemreq_en @= s.val_X & ~s.stall_X & ( s.dmemreq_type_X != nr )", "s.dmemreq_en @= s.val_X & ( s.dmemreq_type_X != nr )", 'R-C20-gating'),
+    _m('gate-xcelreq-ignores-valid', CTRL, "s.xcelreq_en @= s.val_X & ~s.stall_X & s.xcelreq_X", "s.xcelreq_en @= ~s.stall_X & s.xcelreq_X", 'R-C20-gating'),
+    _m('gate-proc2mngr-ignores-stall', CTRL, "s.proc2mngr_en @= s.val_W & ~s.stall_W & s.proc2mngr_en_W", "s.proc2mngr_en @= s.val_W & s.proc2mngr_en_W", 'R-C20-gating'),
+    _m('gate-xcelresp-ignores-stall', CTRL, "s.xcelresp_en @= s.val_M & ~s.stall_M & s.xcelreq_M", "s.xcelresp_en @= s.val_M & s.xcelreq_M", 'R-C20-gating'),
+    _m('gate-rf-wen-ignores-valid', CTRL, "s.rf_wen_W @= s.val_W & s.rf_wen_pending_W", "s.rf_wen_W @= s.rf_wen_pending_W", 'R-C20-gating'),
     # --- TinyRV0InstRTL -------------------------------------------------------------------------------------------
     _m('dec-add-funct3', INSTRTL, "if   s.in_[FUNCT3] == 0b000:     s.out @= ADD", "if   s.in_[FUNCT3] == 0b100:     s.out @= ADD", 'R-C20'),
     _m('dec-sll-srl-swapped', INSTRTL, "elif s.in_[FUNCT3] == 0b001:     s.out @= SLL", "elif s.in_[FUNCT3] == 0b001:     s.out @= SRL", 'R-C20'),
@@ -1884,6 +2296,14 @@ EQUIV = [
     _m('cl-bne-as-not-eq', CL, "if s.R[ inst.rs1 ] != s.R[ inst.rs2 ]:", "if not (s.R[ inst.rs2 ] == s.R[ inst.rs1 ]):"),
     _m2('ctrl-rows-reordered', [(CTRL, "      elif inst == ADD  : s.cs @= concat( y, br_na,  y, imm_x, bm_rf,  y, alu_add, nr, wm_a, y,  n, n )\n      elif inst == SLL  : s.cs @= concat( y, br_na,  y, imm_x, bm_rf,  y, alu_sll, nr, wm_a, y,  n, n )",
                                  "      elif inst == SLL  : s.cs @= concat( y, br_na,  y, imm_x, bm_rf,  y, alu_sll, nr, wm_a, y,  n, n )\n      elif inst == ADD  : s.cs @= concat( y, br_na,  y, imm_x, bm_rf,  y, alu_add, nr, wm_a, y,  n, n )")]),
+    _m('ctrl-comb-D-assignments-swapped', CTRL, "      s.next_val_D @= s.val_D & ~s.stall_D & ~s.squash_D\n\n      # enable signal for send/get interface\n      s.mngr2proc_en @= s.val_D & ~s.stall_D & ~s.squash_D & s.mngr2proc_D",
+       "      s.mngr2proc_en @= s.val_D & ~s.stall_D & ~s.squash_D & s.mngr2proc_D\n\n      s.next_val_D @= s.val_D & ~s.stall_D & ~s.squash_D"),
+    _m('ctrl-comb-M-assignments-swapped', CTRL, "      s.dmemresp_en @= s.val_M & ~s.stall_M & ( s.dmemreq_type_M != nr )\n      s.xcelresp_en @= s.val_M & ~s.stall_M & s.xcelreq_M",
+       "      s.xcelresp_en @= s.val_M & ~s.stall_M & s.xcelreq_M\n      s.dmemresp_en @= s.val_M & ~s.stall_M & ( s.dmemreq_type_M != nr )"),
+    _m('ctrl-enable-conjuncts-reordered', CTRL, "s.mngr2proc_en @= s.val_D & ~s.stall_D & ~s.squash_D & s.mngr2proc_D", "s.mngr2proc_en @= s.mngr2proc_D & ~s.squash_D & s.val_D & ~s.stall_D"),
+    _m('ctrl-enable-via-advance-wire', CTRL, "s.mngr2proc_en @= s.val_D & ~s.stall_D & ~s.squash_D & s.mngr2proc_D", "s.mngr2proc_en @= s.next_val_D & s.mngr2proc_D"),
+    _m('ctrl-hazard-conjuncts-reordered', CTRL, "s.ostall_ld_X_rs1_D @= s.rs1_en_D & s.val_X & s.rf_wen_pending_X", "s.ostall_ld_X_rs1_D @= s.val_X & s.rf_wen_pending_X & s.rs1_en_D"),
+    _m('ctrl-bypass-compare-sides-swapped', CTRL, "if   s.val_X & ( s.inst_D[ RS2 ] == s.rf_waddr_X )", "if   ( s.rf_waddr_X == s.inst_D[ RS2 ] ) & s.val_X"),
     _m('ctrl-dont-care-renamed', CTRL, "if   inst == NOP  : s.cs @= concat( y, br_na,  n, imm_x, bm_x,   n, alu_x,   nr, wm_a, n,  n, n )",
        "if   inst == NOP  : s.cs @= concat( y, br_x,   n, imm_i, bm_rf,  n, alu_cp0, nr, wm_x, n,  n, n )"),
     _m2('alu-code-renumbered-consistently', [(CTRL, "alu_and = b4( 5 )", "alu_and = b4( 9 )"), (MISC, "elif s.fn == 5: s.out @= s.in0 & s.in1", "elif s.fn == 9: s.out @= s.in1 & s.in0")]),
@@ -1908,7 +2328,10 @@ LEVEL_TEXT = ("Clauses only. Static single-instruction agreement of the three Ti
               "instruction's cube and compared with that normal form; the three checksum models are compared in a modular normal form. "
               "Agreement of executions for every program and every timing configuration (memory latency, stall probability, src/sink "
               "delays) is NOT decided.")
-LEVEL_NOTE = ("Not decided: pipeline control of ProcRTL/ProcCL (stalls, bypass selection, squashes, back-pressure, response ordering), "
+LEVEL_NOTE = ("Not decided: pipeline control of ProcRTL/ProcCL (stalls, bypass selection, squashes, back-pressure, response ordering) -- "
+              "R-C20-hazard-symmetry (rs1/rs2 sibling agreement of hazard and bypass logic, operand enables vs ISA register reads) and "
+              "R-C20-gating (side-effect enables gated like their stage's advance condition) are necessary code-shape conditions only, "
+              "they do not establish pipeline correctness; also not decided: "
               "instruction adjacency, timing, termination, adapters, the generic assembler driver. Decided: decode uniqueness and "
               "decoder/table agreement on all legal words, instruction-set agreement, per-instruction datapath semantics of FL, CL and "
               "RTL (steady-flow abstraction) against the ISA document, x0 / reset vector, checksum arithmetic of FL/CL/RTL. Trusted: "
